@@ -213,6 +213,9 @@ class TypeSys:
             if isinstance(r, tuple) and r[0] == "ext":
                 d = r[1]
             if isinstance(r, tuple) and r[0] == "assign":
+                v = r[1].assigns.get(r[2])
+                if isinstance(v, ast.Call) and (dotted(v.func) or "").split(".")[-1] == "TypeVar":
+                    return EMPTY
                 # type alias such as UInt12 = fixedint.FixedInt(...)
                 return t_ext(r[2])
             last = d.split(".")[-1]
